@@ -335,7 +335,7 @@ func (ei *EngineInfo) alwaysInvalidates(fn *types.Func) bool {
 // Frozen exceptions of E4a: construct -> reason.
 var e4aExceptions = map[string]string{
 	"netpol/eval.(*PolicyEngine).AddPodByNameAndNamespace writes podsMap": "the inserted ingress-controller pod is a fake pod without owner; keyPerConnection yields no key for a peer without owner, so nothing about it is ever cached; the function is on the list path only",
-	"netpol/eval.(*PolicyEngine).insertNetworkPolicy writes netpolsMap, exit `return scanErr`": "infeasible exit: the exposure pre-scan evaluates the rule ports with dst == nil, and with a nil dst neither ruleConnections nor getPortsRange has an error return (rule E4a-scan checks exactly that); no input reaches this return, so no failing history can be shown",
+	"netpol/eval.(*PolicyEngine).insertNetworkPolicy writes netpolsMap, exit `return ‹result of GetPolicyRulesSelectorsAndUpdateExposureClusterWideConns›`": "infeasible exit: the exposure pre-scan evaluates the rule ports with dst == nil, and with a nil dst neither ruleConnections nor getPortsRange has an error return (rule E4a-scan checks exactly that); no input reaches this return, so no failing history can be shown",
 }
 
 // CacheInvalidation is rule E4a: every write to engine state that
@@ -447,7 +447,11 @@ func (ei *EngineInfo) checkWriter(fd *core.FuncDecl, fld *types.Var, writes []st
 			desc := "end of function"
 			if ret != nil {
 				pos = ret.Pos()
-				desc = "return " + exprList(ret.Results)
+				var rs []string
+				for _, e := range ret.Results {
+					rs = append(rs, StableResult(fd, e))
+				}
+				desc = "return " + strings.Join(rs, ", ")
 			}
 			for _, b := range bads {
 				if b.desc == desc {
